@@ -100,7 +100,12 @@ def make_cords(r, mdl, bnodes, g):
                 continue
         ct = (g + j) % 3 + 1
         for _ in range(100):
-            c = cm.random_cord(r, ct, 11 + j, mdl.size, mdl.xyz[nd])
+            if ct != 1 and r.random() < 0.3:
+                # boundary grid on a quadrant boundary of its own output system
+                c = cm.aligned_cord(r, ct, 11 + j, mdl.size, mdl.xyz[nd],
+                                    [0.0, 90.0, 180.0, 270.0][int(r.integers(4))])
+            else:
+                c = cm.random_cord(r, ct, 11 + j, mdl.size, mdl.xyz[nd])
             if cm.well_placed(c, mdl.xyz[nd], mdl.size):
                 break
         cords.append(c)
@@ -712,17 +717,8 @@ def run_valid_call(sh, B, o, uset, rsens, case, variant="valid"):
         except Exception as e:
             sym = {"symptom_exception": True, "exc": repr(e)[:200]}
     try:
-        try:
-            out, txt = call_cbcheck(sh, B, o, uset_call)
-        except IndexError as e:
-            if not tg["emfilt_empty"]:
-                raise
-            # known mechanism (findings/C06.json, cbcheck-emfilt-no-mode): report once,
-            # then judge the same model without the print filter
-            sh.violation("exception:cbcheck", case, {"exc": repr(e)[:300]},
-                         dict(tg, nq0=False))
-            o.em_filt = 0
-            out, txt = call_cbcheck(sh, B, o, uset_call)
+        # (an empty effective-mass print table used to raise IndexError -- a966639)
+        out, txt = call_cbcheck(sh, B, o, uset_call)
     except Exception as e:
         if cell == "nq0":
             sh.violation("exception:cbcheck", case, {"exc": repr(e)[:300]}, tg)
